@@ -13,7 +13,7 @@ from physt._construction import (
     extract_1d_array,
     extract_weights,
 )
-from physt.histogram_base import HistogramBase
+from physt.histogram_base import HistogramBase, missed_as_dtype
 from physt.statistics import INVALID_STATISTICS, Statistics
 
 if TYPE_CHECKING:
@@ -176,7 +176,7 @@ class Histogram1D(ObjectWithBinning, HistogramBase):
             self._stats = stats or INVALID_STATISTICS
 
         if self.keep_missed:
-            self._missed = np.array(missed, dtype=self.dtype)
+            self._missed = missed_as_dtype(missed, self.dtype)
         else:
             self._missed = np.zeros(3, dtype=self.dtype)
 
@@ -306,7 +306,7 @@ class Histogram1D(ObjectWithBinning, HistogramBase):
 
     @underflow.setter
     def underflow(self, value):
-        self._missed[0] = value
+        self._set_missed(0, value)
 
     @property
     def overflow(self):
@@ -316,7 +316,7 @@ class Histogram1D(ObjectWithBinning, HistogramBase):
 
     @overflow.setter
     def overflow(self, value):
-        self._missed[1] = value
+        self._set_missed(1, value)
 
     @property
     def inner_missed(self):
@@ -326,7 +326,13 @@ class Histogram1D(ObjectWithBinning, HistogramBase):
 
     @inner_missed.setter
     def inner_missed(self, value):
-        self._missed[2] = value
+        self._set_missed(2, value)
+
+    def _set_missed(self, index: int, value) -> None:
+        if value != value and self._missed.dtype.kind in "iu":
+            # Unknown (NaN) cannot be stored among integers
+            self._missed = self._missed.astype(float)
+        self._missed[index] = value
 
     def find_bin(self, value: float, axis: Optional[Axis] = None) -> Optional[int]:
         """Index of bin corresponding to a value.
